@@ -216,7 +216,9 @@ class SetItem(_StateSpec):
         return [("variables", a.self.attrs["variables"], b.self.attrs["variables"]), ("npid", a.self.attrs["npid"], b.self.attrs["npid"])]
 
     def ensures(self, cx, a, result):
-        return wf_items(a.self, prefix="C05: after item assignment (same length): well-formed") if self.var != "pid" else []
+        own = [("C05: the state stores its OWN copy of the assigned values (a later in-place change of the source array must not reach this variable)",
+                a.self.attrs["variables"].get(self.var) is not a.item)]
+        return own + (wf_items(a.self, prefix="C05: after item assignment (same length): well-formed") if self.var != "pid" else [])
 
 
 class StateInit(Spec):
